@@ -7,7 +7,16 @@ from .scopes import consts, family
 
 OPS = '{"open", "close", "yield", "wait", "sleep", "cancel", "shield"}'
 OPSR = '{"open", "yield", "cancel", "close"}'
+LIVE = dict(consts(2, 3, 1, '{"open", "yield", "wait", "cancel", "shield", "close"}', env='{"cancel"}'))
+LIVE["RecordHist"] = "FALSE"
+LIVEQ = dict(consts(2, 2, 1, '{"open", "yield", "wait", "cancel", "shield"}', env='{"cancel"}'))
+LIVEQ["RecordHist"] = "FALSE"
 FAMILY = family("C03", [
+    # the temporal form of the property: Stuck(t) ~> ~Stuck(t) under weak fairness of loop and tasks
+    ModelCfg("c03-live-n2o2", LIVEQ, tiers=("quick",), check=False,
+             liveness={"spec": "FairSpec", "properties": ["NothingStaysStuck"]}),
+    ModelCfg("c03-live-n2o3", LIVE, tiers=("thorough",), check=False,
+             liveness={"spec": "FairSpec", "properties": ["NothingStaysStuck"]}),
     # a runnable task inside nested scopes that are cancelled in the same step by a sibling, and that
     # catches the cancellation and waits again (cleanup kind 2): must be interrupted again
     ModelCfg("c03-n2o4e0-rewait", consts(2, 4, 0, OPSR, cleanups="{0, 2}", shields="{0}", env="{}"),
